@@ -52,6 +52,7 @@ def accounting(h, names, removed_nostop, after_check, where,
     if wl is None:
         return viols
     listed = {}
+    per_watcher = {}
     for name in wl:
         pids = h.pids(name)
         st = h.status(name)
@@ -62,6 +63,7 @@ def accounting(h, names, removed_nostop, after_check, where,
             viols.append(Violation(
                 'C04:probe-failed', 'list/numprocesses of %s failed' % name))
             continue
+        per_watcher[name] = n
         for p in pids:
             listed.setdefault(p, []).append(name)
             if k.state(p) != 'running':
@@ -95,6 +97,20 @@ def accounting(h, names, removed_nostop, after_check, where,
                     'after a complete check watcher %s reports '
                     'numprocesses=%d, stats pids %r but only %r are active '
                     '(dead entries %r)' % (name, n, stat_pids, pids, dead)))
+    # the daemon-wide answers agree with the per-watcher ones
+    tot = w.probe('numprocesses', {})
+    nw = w.probe('numwatchers', {})
+    if tot is not None and tot.get("numprocesses") != sum(
+            per_watcher.values()) and len(per_watcher) == len(wl):
+        viols.append(Violation(
+            'C04:daemon-wide-count',
+            'numprocesses without a name answers %r, the watchers report '
+            '%r (%s)' % (tot.get("numprocesses"), per_watcher, where)))
+    if nw is not None and nw.get("numwatchers") != len(wl):
+        viols.append(Violation(
+            'C04:daemon-wide-count:watchers',
+            'numwatchers answers %r, list names %r' % (
+                nw.get("numwatchers"), wl)))
     for p, ws in listed.items():
         if len(ws) > 1:
             viols.append(Violation(
